@@ -291,7 +291,7 @@ Definition variant_rename_all (raf : option rule) (v : variant) : option rule :=
 Definition variant_gen (args : list rty) (a : cattrs) (tg : tagging) (raf : option rule) (v : variant)
   : outcome tsty :=
   let name := variant_name (c_rename_all a) v in
-  let tag := match tg, is_named (v_shape v) with Internal t, true => Some (t, name) | _, _ => None end in
+  let tag := match tg, is_named (v_shape v) && negb (v_untagged v) with Internal t, true => Some (t, name) | _, _ => None end in
   bind (shape_gen args (variant_rename_all raf v) NotOptional tag (v_shape v)) (fun vt =>
   bind (match v_as v, v_type v with
         | Some u, _ => name_of (rsubst args u)
